@@ -9,7 +9,9 @@
     for every SQL statement an operation issues, a fresh linker on which exactly that
     statement raises; property oracle = pre-call snapshot; the Coq model's `run_case` must
     predict the failure site and the same per-field changed/unchanged pattern; later
-    predict() (+1 op) must equal a reference linker that never made the failed call.
+    predict(), one more inference op and a cache-sensitive sequence (compute_tf_table or
+    register_term_frequency_lookup, then predict()) must equal a reference linker that never
+    made the failed call.  Fault runs are distributed over C08_WORKERS (default 4) processes.
 """
 from __future__ import annotations
 
@@ -70,31 +72,123 @@ def trace_stage(ctx: Ctx):
     return ix, traces, header, nonatomic, leaks
 
 
+CORE = ("estimate_u", "em", "prob", "m_label", "m_pairwise", "predict", "deterministic_link", "find_matches", "compare_two",
+        "compute_tf_table", "register_tf_lookup", "register_concat_with_tf", "register_predict", "invalidate_cache",
+        "delete_tables", "query_sql")
+
+
 def plan(ctx: Ctx):
-    """[(config, scenario filter, stride)]"""
+    """[(config, scenario filter, stride function)]; stride 1 = every fault point"""
     from harness import c08_x as X
     rng = ctx.rng
     out = []
     if ctx.quick:
+        # primary: every fault point of every operation, every 3rd of the long clustering loops
         a = X.gen_config(rng, "duckdb", "dedupe_only", False, 0)
-        out.append((a, lambda sc: not sc["needs_retain"], 1))
+        out.append((a, lambda sc: not sc["needs_retain"],
+                    lambda sc: 3 if sc["heavy"] else 1))
         b = X.gen_config(rng, "duckdb", "dedupe_only", True, 1)
-        out.append((b, lambda sc: sc["needs_retain"] or sc["name"] in ("compare_two", "find_matches", "em"), 2))
+        out.append((b, lambda sc: sc["needs_retain"] or sc["name"] in ("compare_two", "find_matches", "em"),
+                    lambda sc: 2))
         c = X.gen_config(rng, "duckdb", "link_only", False, 2)
         out.append((c, lambda sc: sc["name"] in ("estimate_u", "em", "predict", "find_matches", "cluster", "cluster_best_links",
-                                                 "m_pairwise", "U:em_no_pairs", "U:find_matches_missing_columns"), 3))
+                                                 "m_pairwise", "labelling_tool", "unlinkables", "graph_metrics", "register_tf_lookup",
+                                                 "U:em_no_pairs", "U:find_matches_missing_columns"),
+                    lambda sc: 6 if sc["heavy"] else 3))
         d = X.gen_config(rng, "sqlite", "dedupe_only", False, 3)
         out.append((d, lambda sc: sc["name"] in ("estimate_u", "em", "predict", "find_matches", "compare_two", "m_label",
-                                                 "U:em_no_pairs", "U:compare_two_missing_columns"), 2))
+                                                 "compute_tf_table", "register_tf_lookup", "register_predict", "query_sql",
+                                                 "invalidate_cache", "U:em_no_pairs", "U:compare_two_missing_columns"),
+                    lambda sc: 2))
     else:
         i = 0
         for backend in ("duckdb", "sqlite"):
             for lt in ("dedupe_only", "link_only"):
                 for retain in (False, True):
-                    for _rep in range(2 if (backend, lt) == ("duckdb", "dedupe_only") else 1):
-                        out.append((X.gen_config(rng, backend, lt, retain, i), lambda sc: True, 1))
-                        i += 1
+                    first = (backend, lt) == ("duckdb", "dedupe_only")
+                    out.append((X.gen_config(rng, backend, lt, retain, i), lambda sc: True,
+                                (lambda sc: 1) if first else (lambda sc: 3 if sc["heavy"] else (1 if sc["name"] in CORE or sc["user"] else 2))))
+                    i += 1
     return out
+
+
+WORKERS = int(os.environ.get("C08_WORKERS", "4"))
+_W = {}
+
+
+class LiteCtx:
+    """what a Runner needs from Ctx inside a worker process; replayed on the real Ctx by merge()"""
+    def __init__(self):
+        self.events = []
+        self.notes = []
+        self.cov = {"evaluations": 0}
+
+    def count_case(self, key, nontrivial, sample=None):
+        self.events.append(("count_case", key, nontrivial, sample))
+
+    def hist(self, name, key):
+        self.events.append(("hist", name, key))
+
+    def log(self, *a):
+        pass
+
+
+def _work(i):
+    from harness import c08_x as X
+    cfg, name, stride, off = _W["tasks"][i]
+    lc = LiteCtx()
+    R = _W.get("runner")
+    if R is None:
+        R = _W["runner"] = X.Runner(lc, _W["ix"], _W["traces"])
+    R.ctx = lc
+    R.cases, R.findings = [], {}
+    R.stats = {"fault_points": {}, "unmodelled_failure_points": 0, "swallowed_faults": 0, "unmapped_statements": [],
+               "later_results_compared": 0, "model_over_approximations": 0}
+    try:
+        R.run_scenario(cfg, R.S[name], stride=stride, offset=off)
+        err = None
+    except Exception:           # noqa: BLE001
+        import traceback
+        err = traceback.format_exc()
+    return {"cases": R.cases, "findings": R.findings, "stats": R.stats, "events": lc.events, "notes": lc.notes, "error": err,
+            "task": (cfg["id"], name)}
+
+
+def run_tasks(ix, traces, tasks):
+    import multiprocessing as mp
+    _W.update(ix=ix, traces=traces, tasks=tasks)
+    _W.pop("runner", None)
+    if WORKERS <= 1 or len(tasks) <= 1:
+        return [_work(i) for i in range(len(tasks))]
+    with mp.get_context("fork").Pool(WORKERS) as pool:
+        return pool.map(_work, range(len(tasks)), chunksize=1)
+
+
+def merge(ctx, R, res):
+    if res["error"]:
+        raise RuntimeError(f"C08 worker failed on {res['task']}:\n{res['error']}")
+    for ev in res["events"]:
+        if ev[0] == "count_case":
+            ctx.count_case(ev[1], ev[2], ev[3])
+        else:
+            ctx.hist(ev[1], ev[2])
+    ctx.notes += res["notes"]
+    R.cases += res["cases"]
+    for key, f in res["findings"].items():
+        g = R.findings.setdefault(key, {"count": 0, "first": None, "points": []})
+        g["count"] += f["count"]
+        g["points"] += f["points"]
+        if g["first"] is None:
+            g["first"] = f["first"]
+    st = res["stats"]
+    for name, fp in st["fault_points"].items():
+        g = R.stats["fault_points"].setdefault(name, {"operation": fp["operation"], "statements": {}, "injected": 0, "raised": 0})
+        g["statements"].update(fp["statements"])
+        g["injected"] += fp["injected"]
+        g["raised"] += fp["raised"]
+    for k in ("unmodelled_failure_points", "swallowed_faults", "later_results_compared"):
+        R.stats[k] += st[k]
+    R.stats["unmapped_statements"] += st["unmapped_statements"]
 
 
 def run(ctx: Ctx):
@@ -107,8 +201,9 @@ def run(ctx: Ctx):
         "translators/c08_effects.py: alias tracking limited to the fixed list of inlined callees; calls in SQL_NAMES / PURE_NAMES "
         "are trusted not to write the settings they are handed (checked by X on every exercised path: each executed statement "
         "must map to a Sql site, the post-failure state is diffed field by field)",
-        "harness X: failure points are the backend's _execute_sql_against_backend calls (SQLite's direct cursor use in "
-        "as_record_dict/drop is not interceptable) and the listed user-level failures; failures inside pandas/JSON code are not covered",
+        "harness X: failure points are every statement the backend executes (DuckDB: _execute_sql_against_backend; SQLite: that "
+        "method and every cursor of the connection, so also as_record_dict / drop / pandas to_sql) and the listed user-level "
+        "failures; DuckDB's con.register and failures inside pandas/JSON code are not covered",
         "modelled not verified: Python evaluation order / try-finally semantics as in Model/Atomic.v `run`",
     ]
     ok = ctx.proof_stage("Properties/C08.v")
@@ -130,10 +225,9 @@ def run(ctx: Ctx):
         else:
             R.run_scenario(cfg, sc, stride=10 ** 9, offset=int(k) - 1)
     else:
-        for cfg, flt, stride in plan(ctx):
-            t0 = time.time()
-            n0 = ctx.cov["evaluations"]
-            only = os.environ.get("C08_SCENARIOS")          # development aid: restrict the scenarios
+        tasks = []
+        only = os.environ.get("C08_SCENARIOS")          # development aid: restrict the scenarios
+        for cfg, flt, stride_of in plan(ctx):
             for name, sc in R.S.items():
                 if not flt(sc) or cfg["backend"] not in sc["backends"]:
                     continue
@@ -143,10 +237,19 @@ def run(ctx: Ctx):
                     continue
                 if sc["link_types"] and cfg["link_type"] not in sc["link_types"]:
                     continue
+                if sc["no_retain"] and cfg["retain"]:
+                    continue
+                stride = stride_of(sc)
                 off = ctx.rng.randrange(stride) if stride > 1 else 0
-                R.run_scenario(cfg, sc, stride=stride, offset=off)
-            ctx.hist("configuration", f"{cfg['backend']}/{cfg['link_type']}/retain={cfg['retain']}/prefix={'+'.join(cfg['prefix']) or '-'}")
-            ctx.log(f"config {cfg['id']}: {ctx.cov['evaluations'] - n0} fault runs in {time.time() - t0:.1f}s")
+                tasks.append((cfg, name, stride, off))
+            ctx.hist("configuration", f"{cfg['backend']}/{cfg['link_type']}/retain={cfg['retain']}/prefix={'+'.join(cfg['prefix']) or '-'}"
+                                      f"/later={cfg['later']}+{cfg['cache_later']}")
+        t0 = time.time()
+        results = run_tasks(ix, traces, tasks)
+        for (cfg, name, _s, _o), res in zip(tasks, results):
+            merge(ctx, R, res)
+        ctx.log(f"{len(tasks)} (configuration, scenario) tasks, {ctx.cov['evaluations']} fault runs in {time.time() - t0:.1f}s "
+                f"({WORKERS} worker processes)")
 
     # ---- model vs real, inside Coq
     runner = "fun c => match c with (p, o, k, e, v, s, r) => run_case p o k e v s r end"
